@@ -2,6 +2,10 @@ import TrionModel.Lemmas.MapPut
 import TrionModel.Lemmas.MapRemove
 import TrionModel.Lemmas.MapErase
 import TrionModel.Lemmas.MapCount
+import TrionModel.Lemmas.MapBelow
+import TrionModel.Lemmas.MapRuns
+import TrionModel.Lemmas.MapOpsPut
+import TrionModel.Lemmas.MapOpsRemove
 /-!
 # C15 — the sparse memory map behaves as an address-to-byte dictionary
 
@@ -12,9 +16,14 @@ Model: `Trion.Map` (Model/Map.lean), mirroring `MemoryMap`. Specification: `Trio
 `MInv ps` = segments ascending, non-empty, last address ≤ 0xFFFFFFFF, a gap of at least one address
 between neighbours (non-overlapping and maximally merged).
 
-Not proved here (correspondence only, see props/C15.json): the dictionary-level reading of `find … Below`
-(the index-level characterisation is `locate_spec`); freedom from index panics inside the Rust
-`put`/`remove_range`.
+`put` and `remove_range` exist in two forms: the recursive, proof-friendly `put` / `removeRange` of
+Model/Map.lean, about which the refinement theorems are stated, and the OPERATIONAL `putOps` /
+`removeRangeOps` of Model/MapOps.lean, which mirror the Rust functions statement by statement with an
+explicit `.panic` at every index / slice / `splice` / `drain` / `split_at_mut` / `insert` / `assert!` /
+overflow-checked arithmetic site (and `.desync` if a written `range.last` disagreed with the data).
+`putOps_eq` / `removeRangeOps_eq` show that on every `MInv` state the operational forms return `.ok` of
+exactly what the recursive forms compute, so every refinement theorem transfers (`ops_no_panic`,
+`ops_history`).
 -/
 namespace Trion.Map
 open Trion.Dict
@@ -129,6 +138,21 @@ theorem find_above_agrees (ps : Segs) (a : Nat) (inv : MInv ps) :
       · exact Or.inl ⟨h5, by unfold segLast; omega⟩
       · exact Or.inr h5
 
+/-- C15 (find, Below): the run containing the address, else the nearest run below it (the maximal run with the
+greatest last address `< a`: nothing is occupied between its end and `a`), else `None` when nothing at or below
+the address is occupied. -/
+theorem find_below_agrees (ps : Segs) (a : Nat) (inv : MInv ps) :
+    (find ps a .below = .ok none ∧ ∀ k, k ≤ a → abs ps k = none) ∨
+    (∃ f l, find ps a .below = .ok (some (f, l)) ∧ IsRun (abs ps) f l ∧
+      ((f ≤ a ∧ a ≤ l) ∨ (l < a ∧ ∀ k, l < k → k ≤ a → abs ps k = none))) :=
+  find_below_agrees_aux ps a inv
+
+example : MInv [(10, [1, 2, 3]), (20, [4]), (30, [5, 6])] ∧
+    find [(10, [1, 2, 3]), (20, [4]), (30, [5, 6])] 25 .below = .ok (some (20, 20)) ∧
+    find [(10, [1, 2, 3]), (20, [4]), (30, [5, 6])] 11 .below = .ok (some (10, 12)) ∧
+    find [(10, [1, 2, 3]), (20, [4]), (30, [5, 6])] 5 .below = .ok none := by
+  refine ⟨by simp [MInv, Ok], by decide, by decide, by decide⟩
+
 /-- C15 (get, Exact): `None` iff unoccupied; otherwise the run and the bytes from `a` to the end of the run. -/
 theorem get_exact_agrees (ps : Segs) (a : Nat) (inv : MInv ps) :
     (get ps a .exact = .ok none ∧ abs ps a = none) ∨
@@ -175,6 +199,34 @@ theorem iterRange_agrees (ps : Segs) (lo hi : Nat) (inv : MInv ps) (h : lo ≤ h
 example : countRange [(1, [1, 2, 3]), (7, [4])] 2 7 = .ok (3, 2) ∧
     iterRange [(1, [1, 2, 3]), (7, [4])] 2 7 = .ok [((2, 3), [2, 3]), ((7, 7), [4])] := by decide
 
+/-! ### counts at dictionary level -/
+
+/-- C15 (canonical representation): two well-formed segment lists denoting the same dictionary are equal, so
+"the segments" of a map are a function of the dictionary alone (its maximal runs). -/
+theorem minv_canonical {ps qs : Segs} (hp : MInv ps) (hq : MInv qs) (h : abs ps = abs qs) : ps = qs :=
+  minv_canonical_aux hp hq h
+
+/-- the run starts counted by `Dict.runs` are exactly the first addresses of the maximal runs -/
+theorem runs_counts_isRun {ps : Segs} (inv : MInv ps) (k : Nat) :
+    startsAt (abs ps) 0 k = true ↔ ∃ l, IsRun (abs ps) k l :=
+  startsAt_iff_isRun inv k
+
+/-- C15 (count, dictionary level): never panics; (number of occupied u32 addresses saturated at u32::MAX,
+number of maximal runs of the dictionary — `Dict.runs`, Spec/DictRuns.lean). -/
+theorem count_runs (ps : Segs) (inv : MInv ps) :
+    count ps = .ok (min (occupied (abs ps) 0 4294967296) u32Max, runs (abs ps)) :=
+  count_runs_aux ps inv
+
+/-- C15 (count_range, dictionary level): never panics; (number of occupied addresses in `lo..=hi` saturated at
+u32::MAX, number of maximal runs of the dictionary meeting `lo..=hi` — `Dict.runsIn`). -/
+theorem countRange_runs (ps : Segs) (lo hi : Nat) (inv : MInv ps) (h : lo ≤ hi) (hh : hi ≤ u32Max) :
+    countRange ps lo hi =
+      .ok (min (occupied (abs ps) lo (hi + 1 - lo)) u32Max, runsIn (abs ps) lo (hi + 1 - lo)) :=
+  countRange_runs_aux ps lo hi inv h hh
+
+example : runsIn (abs [(1, [1, 2, 3]), (7, [4])]) 2 6 = 2 ∧ countRange [(1, [1, 2, 3]), (7, [4])] 2 7 = .ok (3, 2) := by
+  decide
+
 /-! ### histories -/
 
 /-- the dictionary after one operation (a put that would run past 0xFFFFFFFF is rejected) -/
@@ -218,6 +270,79 @@ theorem history (ops : List Op) (wf : ∀ op ∈ ops, op.wf) :
   exact ⟨g1, g2, fun a d h => (put_refines _ a d g1 h).1⟩
 
 example : run [.put 4294967295 [1], .put 0 [2, 3], .removeRange 1 1, .remove 4294967295] = [(0, [2])] := by
+  rfl
+
+/-! ### the operational (statement-by-statement) `put` / `remove_range` -/
+
+/-- C15 (put, operational): on every well-formed map and for every `u32` address, the statement-by-statement
+model of `MemoryMap::put` reaches none of its panic sites (index, `splice`, slice, `split_at_mut`, `insert`,
+`drain`, `added -= …`, `addr + (len-1) as u32`, …), writes no inconsistent range, and returns exactly the result
+and state of the recursive `put`. -/
+theorem putOps_refines (ps : Segs) (a : Nat) (d : List UInt8) (inv : MInv ps) (ha : a ≤ u32Max) :
+    putOps ps a d = .ok (put ps a d) :=
+  putOps_eq inv ha d
+
+/-- C15 (remove_range, operational): likewise for `MemoryMap::remove_range` (`parts[first_idx]`,
+`data.drain(..n)`, `range.last + 1`, `range.first - 1`, `parts.insert`, `parts.drain(a..b)`, `parts.remove`,
+`assert!(!remove_first)`, the second `locate` on the already modified vector). -/
+theorem removeRangeOps_refines (ps : Segs) (lo hi : Nat) (inv : MInv ps) (h : lo ≤ hi) (hh : hi ≤ u32Max) :
+    removeRangeOps ps lo hi = .ok (removeRange ps lo hi) :=
+  removeRangeOps_eq inv h hh
+
+example : putOps [(2, [9, 9]), (6, [7]), (9, [5, 5])] 1 [1, 2, 3, 4, 5, 6, 7, 8, 9] = .ok (.ok 5, [(1, [1, 2, 3, 4, 5, 6, 7, 8, 9, 5])]) ∧
+    removeRangeOps [(1, [1, 2, 3, 4])] 2 3 = .ok [(1, [1]), (4, [4])] ∧
+    removeRangeOps [(1, [1, 2]), (5, [3]), (8, [4, 5])] 2 8 = .ok [(1, [1]), (9, [5])] :=
+  ⟨rfl, rfl, rfl⟩
+
+/-- one operation through the operational model = the recursive step -/
+theorem stepOps_eq (ps : Segs) (op : Op) (inv : MInv ps) (wf : op.wf) : stepOps ps op = .ok (step ps op) := by
+  cases op with
+  | put a d => simp only [stepOps, step, putOps_eq inv wf d, Out.bind_ok]
+  | remove a =>
+    have h := (remove_refines ps a inv).2.2
+    simp only [stepOps, step]
+    generalize remove ps a = r at h
+    obtain ⟨r1, r2⟩ := r
+    rcases h with ⟨h, _⟩ | ⟨f, d, h, _⟩ <;> (simp only at h; subst h; rfl)
+  | removeRange lo hi => exact removeRangeOps_eq inv wf.1 wf.2
+  | clear => rfl
+
+/-- a whole history through the operational model = the recursive run -/
+theorem runOps_eq (ops : List Op) (wf : ∀ op ∈ ops, op.wf) : runOps ops = .ok (run ops) := by
+  have gen : ∀ (ops : List Op) (ps : Segs), MInv ps → (∀ op ∈ ops, op.wf) →
+      ops.foldl (fun (st : Out Segs) op => st.bind fun ps => stepOps ps op) (Out.ok ps) =
+        Out.ok (ops.foldl step ps) := by
+    intro ops
+    induction ops with
+    | nil => intro ps _ _; rfl
+    | cons op r ih =>
+      intro ps inv wf
+      have w := wf op (List.mem_cons_self ..)
+      simp only [List.foldl_cons, Out.bind_ok, stepOps_eq ps op inv w]
+      exact ih _ (step_refines ps op inv w).1 (fun o ho => wf o (List.mem_cons_of_mem _ ho))
+  exact gen ops [] trivial wf
+
+/-- C15 (no index panic): no finite sequence of put / remove / remove_range / clear on a new map reaches a
+panic site of the statement-by-statement models (nor an inconsistent range), whatever the arguments
+(`u32` addresses, valid ranges, any data). -/
+theorem ops_no_panic (ops : List Op) (wf : ∀ op ∈ ops, op.wf) : ∃ ps, runOps ops = .ok ps :=
+  ⟨run ops, runOps_eq ops wf⟩
+
+/-- C15 (history, operational): every state reachable from the empty map THROUGH THE OPERATIONAL FUNCTIONS
+satisfies the invariant and equals the dictionary run; a further operational put of data that fits returns the
+number of previously unoccupied addresses it fills. -/
+theorem ops_history (ops : List Op) (wf : ∀ op ∈ ops, op.wf) :
+    ∃ ps, runOps ops = .ok ps ∧ MInv ps ∧ abs ps = ops.foldl dictStep Dict.empty ∧
+      ∀ a d, a ≤ u32Max → a + d.length ≤ 4294967296 →
+        ∃ ps', putOps ps a d = .ok (.ok (fresh (abs ps) a d.length), ps') ∧ MInv ps' ∧
+          abs ps' = Dict.put (abs ps) a d := by
+  obtain ⟨g1, g2, _⟩ := history ops wf
+  refine ⟨run ops, runOps_eq ops wf, g1, g2, fun a d ha h => ?_⟩
+  obtain ⟨p1, p2, p3⟩ := put_refines (run ops) a d g1 h
+  refine ⟨(put (run ops) a d).2, ?_, p2, p3⟩
+  rw [putOps_eq g1 ha d, ← p1]
+
+example : runOps [.put 4294967295 [1], .put 0 [2, 3], .removeRange 1 1, .remove 4294967295] = .ok [(0, [2])] := by
   rfl
 
 end Trion.Map
